@@ -33,7 +33,8 @@ Fresh(cid) == [cid |-> cid,
                dials |-> 0, conn |-> FALSE,
                wr |-> {},             \* goroutine roles inside Tunnel.Write
                cur |-> 0,             \* type of the packet the loop is handling (0 = none)
-               prog |-> 0]            \* how far the packets RECEIVED so far got through handshake(1), tunnel create(4), tunnel auth(6)
+               prog |-> 0,            \* how far the packets RECEIVED so far got through handshake(1), tunnel create(4), tunnel auth(6)
+               user |-> ""]           \* the user the tunnel acts for ("" = nobody yet)
 
 VARIABLES st,       \* tunnel object -> record
           regBusy   \* tunnel objects inside RegisterTunnel / RemoveTunnel
@@ -51,6 +52,9 @@ Pre_Enter(u, cid, found) ==
   \* the connection cache hands out a tunnel only under the id its OUT side published it with
   \cup If(found => (Known(u) /\ st[u].out = "published"), "G_C07_FoundOnlyIfPublished")
 Eff_Enter(u, cid) == [Get(u, cid) EXCEPT !.hin = @ + 1]
+\* the request that makes the tunnel object (found = FALSE) gives it the user the authentication backend confirmed for
+\* that request; a request that finds the object in the cache joins it and changes nothing
+Eff_EnterAs(u, cid, found, usr) == [Eff_Enter(u, cid) EXCEPT !.user = IF found THEN @ ELSE usr]
 
 \* the last handler leaving a tunnel leaves nothing behind
 Pre_Exit(u) ==
@@ -103,6 +107,11 @@ T_HS == 1  T_CREATE == 4  T_AUTH == 6  T_CHAN == 8  T_DATA == 10
 NextProg(pr, t) == IF (pr = 0 /\ t = T_HS) \/ (pr = 1 /\ t = T_CREATE) \/ (pr = 2 /\ t = T_AUTH) THEN pr + 1 ELSE pr
 Pre_Recv(u, t) == If(st[u].loop = "idle", "G_C08_OneReaderPerTunnel")
 Eff_Recv(u, t) == [st[u] EXCEPT !.loop = "handling", !.cur = t, !.prog = NextProg(@, t)]
+\* the user the tunnel acts for when a packet arrives (usr, "?" = not reported) is the one it was opened as.  The one
+\* place where it is set again is the tunnel request (its access cookie names the user): a change can show at the packet
+\* that follows a tunnel request received in order (prog = 2), never later and never before
+Pre_RecvAs(u, t, usr) == Pre_Recv(u, t) \cup If(usr \in {"?", st[u].user} \/ st[u].prog = 2, "G_C05_TunnelUserIsTheConfirmedOne")
+Eff_RecvAs(u, t, usr) == [Eff_Recv(u, t) EXCEPT !.user = IF usr = "?" THEN @ ELSE usr]
 Pre_Step(u) == If(st[u].loop = "handling", "G_C08_OneReaderPerTunnel")
 Eff_Step(u) == [st[u] EXCEPT !.loop = "idle", !.cur = 0]
 Pre_LoopExit(u) == If(st[u].loop \in {"none", "idle", "handling", "reading"} /\ st[u].h = "serving", "G_C11_LoopExitsOnce")
@@ -146,6 +155,7 @@ CONSTANTS Tunnels,   \* tunnel objects of the model
           Kind       \* tunnel object -> "ws" | "legacy"
 
 Cid(u) == u   \* distinct connection identifiers
+UserOf(u) == u   \* and distinct users
 
 Init == st = [u \in Tunnels |-> Fresh(Cid(u))] /\ regBusy = {}
 
@@ -154,7 +164,7 @@ Take(pre, u, r) == pre = {} /\ st' = Put(u, r) /\ UNCHANGED regBusy
 \* at most two handler invocations per tunnel are explored (legacy: OUT then IN); found = the cache holds it
 Enter(u) == /\ st[u].hin = 0 /\ st[u].h = "none"
             /\ IF Kind[u] = "ws" THEN st[u].tr = "unknown" ELSE st[u].out \in {"none", "published"}
-            /\ Take(Pre_Enter(u, Cid(u), st[u].out = "published"), u, Eff_Enter(u, Cid(u)))
+            /\ Take(Pre_Enter(u, Cid(u), st[u].out = "published"), u, Eff_EnterAs(u, Cid(u), st[u].out = "published", UserOf(u)))
 Exit(u) == /\ st[u].hin > 0
            /\ (st[u].h \in {"none", "unregistered"} /\ st[u].out \in {"none", "published"})
            /\ (st[u].h = "none" => (Kind[u] = "legacy" /\ st[u].out = "published"))
@@ -170,7 +180,7 @@ RegBegin(u) == /\ st[u].h = (IF st[u].tr = "ws" THEN "open" ELSE "drained") /\ s
 RegEnd(u) == st[u].h = "registering" /\ Pre_RegEnd(u) = {} /\ st' = Put(u, Eff_RegEnd(u)) /\ regBusy' = regBusy \ {u}
 Reading(u) == st[u].h = "serving" /\ st[u].loop \in {"none", "idle"} /\ Take(Pre_Reading(u), u, Eff_Reading(u))
 Read(u) == st[u].loop = "reading" /\ Take(Pre_Read(u), u, Eff_Read(u))
-Recv(u) == st[u].loop = "idle" /\ \E t \in {T_HS, T_CREATE, T_AUTH, T_CHAN, T_DATA, 13} : Take(Pre_Recv(u, t), u, Eff_Recv(u, t))
+Recv(u) == st[u].loop = "idle" /\ \E t \in {T_HS, T_CREATE, T_AUTH, T_CHAN, T_DATA, 13} : Take(Pre_RecvAs(u, t, st[u].user), u, Eff_RecvAs(u, t, st[u].user))
 Step(u) == st[u].loop = "handling" /\ st[u].wr \cap {"loop"} = {} /\ Take(Pre_Step(u), u, Eff_Step(u))
 \* the loop ends: a read failed (client gone), a packet was refused, or a close was answered
 LoopExit(u) == st[u].h = "serving" /\ st[u].loop \in {"idle", "handling"} /\ st[u].wr \cap {"loop"} = {} /\ Take(Pre_LoopExit(u), u, Eff_LoopExit(u))
@@ -212,6 +222,10 @@ AtMostOneDial == \A u \in DOMAIN st : st[u].dials <= 1
 RelayNeedsConnection == \A u \in DOMAIN st : st[u].relay # "none" => st[u].conn
 ConnectionNeedsRegisteredLoop == \A u \in DOMAIN st : st[u].conn => st[u].dials = 1
 ConnectionNeedsTheSteps == \A u \in DOMAIN st : st[u].dials > 0 => st[u].prog = 3
+\* C05 / C07: a tunnel acts for the user it was opened as, whatever the other tunnels do
+UserIsTheOneItWasOpenedAs == \A u \in DOMAIN st : st[u].user \in {"", UserOf(u)} /\ (st[u].loop # "none" => st[u].user = UserOf(u))
+\* C11: the registry holds exactly the tunnels that are being served
+RegCount(s) == Cardinality({x \in DOMAIN s : s[x].reg})
 \* C07
 PairingById == \A u \in DOMAIN st : st[u].cid = Cid(u)
 InOnlyAfterPublish == \A u \in DOMAIN st : (st[u].tr = "legacy" /\ st[u].h # "none") => st[u].out = "published"
